@@ -134,7 +134,7 @@ PROPS["C07"]["runs"] += [
 PROPS["C08"] = {
     "level_text": 'Hostile packets: K arbitrary packets (payload 0..P fully symbolic, any header) from Init through the real decoders: no panic, no loop beyond the unwinding bound, returned frames within the documented maximum, returned buffers never written by later calls (write monitor + native compare), accounting invariant after every call - all 15 decoders (MPEG-4 audio over the SizeLength/IndexLength values the SDP layer admits) plus the PTSEqualsDTS helpers; one inductive step at the REAL size caps with length-only buffers (VP8, VP9, AV1, fragmented, KLV, MPEG-1 video), whose reads are memoised so that counterexamples replay natively; unit-COUNT cap for H264/H265: an aggregation packet with a unit count around the documented maximum on the marker path and on the timestamp-split path.',
     "level_note": 'Outside: inductive size-cap step for H264/H265 (solver timeouts on length-only data, dropped rather than weakened); M-JPEG beyond K=2, P=14; heap measured as reachable slice lengths.',
-    "runs": codec_runs("ZzC08", "Hist", state=True, quick={"*": {}, "rtpvp9": {"K": 2, "P": 5}}, thorough={"*": {"K": 3}, "rtpvp9": {"K": 2, "P": 8}},
+    "runs": codec_runs("ZzC08", "Hist", state=True, quick={"*": {}, "rtpvp9": {"K": 2, "P": 5}, "rtpav1": {"K": 2, "P": 7}}, thorough={"*": {"K": 3}, "rtpvp9": {"K": 2, "P": 8}, "rtpav1": {"K": 2, "P": 9}},
                        extra_entries={"rtpklv": ["ZzC08KLVInd"], "rtpfragmented": ["ZzC08FragmentedInd"], "rtpvp8": ["ZzC08VP8Ind"],
                                       "rtpvp9": ["ZzC08VP9Ind"], "rtpav1": ["ZzC08AV1Ind"]})
     + [R("mpeg1video", "pkg/format/rtpmpeg1video", "pkg/format/rtpmpeg1video", ["ZzC08MPEG1VideoHist", "ZzC08MPEG1VideoInd"], flags={"allow": "unwind"}, extras=ST("rtpmpeg1video"))],
